@@ -24,7 +24,7 @@ BUDGET = {
     'thorough': {'families': 40000, 'wall_cap': 5400, 'shrink_s': 40},
 }
 
-KINDS = ['value', 'filter', 'filter_sub', 'key', 'index', 'timeout', 'base']
+KINDS = ['value', 'filter', 'filter_sub', 'key', 'index', 'timeout', 'notimpl', 'base']
 
 
 def gen_systematic(rng):
